@@ -159,8 +159,6 @@ def attr_sets(n, key, seed):
         return ((),)
     if key == "A1":
         return tuple((s,) for s in singles(n, "VA", seed))
-    if key == "A1B":
-        return tuple((s,) for s in singles(n, "VB", seed))
     if key == "A2A":
         out = list(combos(singles(n, "VA", seed), 2))
         have = set(out)
@@ -193,7 +191,6 @@ PLAN = {
 KEY_DOC = {
     "A0": "no attribute",
     "A1": "1 attribute out of per-variable {min x2, max x2, nominal x2, fixed=false, fixed=true, start, max=p, start=p}",
-    "A1B": "1 attribute out of per-variable {min x2, max x2, nominal x2, fixed=true, start}",
     "A2A": "2 attributes out of the A1 alphabet (not the same attribute of the same variable twice) + explicit `start = 0` on one "
     "variable against an explicit start on another",
     "A2B": "2 attributes out of per-variable {min x2, max x2, nominal x2, fixed=true, start} + start=0 / start=p on one variable "
